@@ -3,6 +3,8 @@ from __future__ import annotations
 
 import collections
 
+from dataclasses import replace
+
 from hypothesis import strategies as st
 
 from vlib import gen as G
@@ -15,9 +17,14 @@ from checks import pycommon as PC
 
 @st.composite
 def cases(draw, tier):
-    m = draw(G.modules(PC.profile()))
+    # typedefs may sit in another namespace than their template (bound where the template lives)
+    m = draw(G.modules(replace(PC.profile(), typedef_same_ns=False)))
     items = refinst.expected(M.observable(m))
     opts = draw(PC.options(m, items))
+    if opts['top'] and any(isinstance(it, M.Typedef) and tuple(it.type.ns) != tuple(p)
+                           for p, it in M.iter_items(m)):
+        # ... which exists only if the whole file is bound: a top namespace may cut it off
+        opts = dict(opts, top=[])
     return (m, opts)
 
 
